@@ -6,9 +6,11 @@
 #ifndef FCPPT_CONTAINER_BITFIELD_OPERATORS_HPP_INCLUDED
 #define FCPPT_CONTAINER_BITFIELD_OPERATORS_HPP_INCLUDED
 
+#include <fcppt/container/bitfield/detail/element_bits.hpp>
 #include <fcppt/container/bitfield/object_impl.hpp>
 #include <fcppt/config/external_begin.hpp>
 #include <algorithm>
+#include <cstddef>
 #include <fcppt/config/external_end.hpp>
 
 namespace fcppt
@@ -106,6 +108,22 @@ operator~(fcppt::container::bitfield::object<ElementType, InternalType> _field)
       _field.array().end(),
       _field.array().begin(),
       [](InternalType const _arg) { return ~_arg; });
+
+  using object_type = fcppt::container::bitfield::object<ElementType, InternalType>;
+
+  // The unused bits of the last array element must stay zero, otherwise
+  // bitfields that contain the same elements compare and hash differently.
+  constexpr std::size_t const used_bits{
+      static_cast<std::size_t>(object_type::static_size::value) %
+      fcppt::container::bitfield::detail::element_bits<std::size_t, InternalType>::value};
+
+  if constexpr (used_bits != 0U)
+  {
+    InternalType &last{_field.array().get_unsafe(object_type::array_size::value - 1U)};
+
+    last = static_cast<InternalType>(
+        last & static_cast<InternalType>((static_cast<InternalType>(1) << used_bits) - 1));
+  }
 
   return _field;
 }
